@@ -1,4 +1,25 @@
+import os
 from vlib.core import Query
+from vlib import layout
+def gen_fill(wd):
+    """Field-wise nondeterministic fill of EbSvtAv1EncConfiguration (byte-wise filling makes the SSA->SAT
+    conversion quadratic). Regenerated from the header every run."""
+    leaves = layout.leaf_fields("EbSvtAv1Enc.h", "EbSvtAv1EncConfiguration", wd)
+    assert len(leaves) > 100
+    with open(os.path.join(wd, "c14_fill.inc"), "w") as f:
+        f.write("static void fill_config(EbSvtAv1EncConfiguration *c) {\n")
+        for name, ty in leaves:
+            if name == "pred_struct":
+                f.write("    for (int i = 0; i < (int)(sizeof(c->pred_struct) / sizeof(c->pred_struct[0])); i++) {\n"
+                        "        c->pred_struct[i].temporal_layer_index = vin32(); c->pred_struct[i].decode_order = vin32();\n"
+                        "        for (int j = 0; j < REF_LIST_MAX_DEPTH; j++) { c->pred_struct[i].ref_list0[j] = vini32(); c->pred_struct[i].ref_list1[j] = vini32(); }\n    }\n")
+            elif "*" in ty:
+                f.write("    c->%s = vinbool() ? (void *)&v_some_buffer : NULL;\n" % name)
+            elif "[" in ty:
+                f.write("    for (unsigned i = 0; i < sizeof(c->%s) / sizeof(c->%s[0]); i++) c->%s[i] = (__typeof__(c->%s[0]))vin64();\n" % (name, name, name, name))
+            else:
+                f.write("    c->%s = (__typeof__(c->%s))vin64();\n" % (name, name))
+        f.write("}\n")
 H = "Source/Lib/Encoder/Globals/EbEncHandle.c:"
 NULLQ = [
  ("n_init", "svt_av1_enc_init", "handle"), ("n_deinit", "svt_av1_enc_deinit", "handle"),
@@ -29,13 +50,17 @@ def queries(tier):
     qs.append(Query(name="enc_m_reject_then_accept", harness="C14/enc_api.c", entry="m_reject_then_accept",
                     funcs=[H + "svt_av1_enc_set_parameter", H + "copy_api_from_app", H + "verify_settings", H + "set_param_based_on_input",
                            H + "load_default_buffer_configuration_settings"],
-                    unwindset=["vin_fill.0:2200"], unwind=6, defines=["SCS_STATIC=1"],
+                    unwind=34, gen=gen_fill, defines=["SCS_STATIC=1"],
                     bound="set_parameter(arbitrary 1.8 kB configuration) then set_parameter(defaults + size 64..264 even)",
                     what="a rejected configuration leaves the handle usable; no call blocks on the configuration mutex", timeout=900,
                     checks=["--unwinding-assertions", "--drop-unused-functions", "--no-standard-checks"]))
+    qs.append(Query(name="enc_s_validate_manual_pred_struct", harness="C14/enc_api.c", entry="s_validate_arbitrary_config",
+                    funcs=[H + "copy_api_from_app", H + "verify_settings"], unwind=34, gen=gen_fill, defines=["SCS_STATIC=1", "ONLY_MANUAL_PS=1"],
+                    bound="defaults + arbitrary manual prediction structure (entry count any int32 except 3..32, all entry contents)",
+                    what="validating any manual prediction structure performs no out-of-bounds access", timeout=900, mem_gb=24))
     qs.append(Query(name="enc_s_validate_arbitrary_config", harness="C14/enc_api.c", entry="s_validate_arbitrary_config",
                     funcs=[H + "copy_api_from_app", H + "verify_settings", H + "set_default_configuration_parameters"],
-                    unwindset=["vin_fill.0:2200"], unwind=6, defines=["SCS_STATIC=1"],
-                    bound="all 2^(8*sizeof(EbSvtAv1EncConfiguration)) configurations; manual prediction structure loops unwound 40",
+                    unwind=34, gen=gen_fill, defines=["SCS_STATIC=1", "NO_MANUAL_PS=1"], mem_gb=24,
+                    bound="all configurations with the manual prediction structure switched off (every other field arbitrary)",
                     what="validating any configuration (valid or not) performs no out-of-bounds access / undefined arithmetic", timeout=900))
     return qs
